@@ -20,6 +20,29 @@ static void case_q(const J& g, W& w) {
     Array<Vec2> ext = {};
     rep.get_extrema(ext);
     log_offsets(w, "extrema", ext, ok);
+    // "Append ... to result": earlier content of the caller's array stays, the offsets follow it
+    {
+        Array<Vec2> pre = {};
+        pre.append(Vec2{123, -456});
+        pre.append(Vec2{7, 8});
+        rep.get_offsets(pre);
+        bool kept = pre.count >= 2 && pre[0] == Vec2{123, -456} && pre[1] == Vec2{7, 8};
+        Array<Vec2> tail = {};
+        for (uint64_t i = 2; i < pre.count; i++) tail.append(pre[i]);
+        log_offsets(w, "appended_offsets", tail, ok);
+        Array<Vec2> pre2 = {};
+        pre2.append(Vec2{-1, -2});
+        rep.get_extrema(pre2);
+        kept = kept && pre2.count >= 1 && pre2[0] == Vec2{-1, -2};
+        Array<Vec2> tail2 = {};
+        for (uint64_t i = 1; i < pre2.count; i++) tail2.append(pre2[i]);
+        log_offsets(w, "appended_extrema", tail2, ok);
+        w.kb("append_keeps", kept);
+        pre.clear();
+        pre2.clear();
+        tail.clear();
+        tail2.clear();
+    }
     // a copy must denote the same thing and be independent
     Repetition cp = {};
     cp.copy_from(rep);
